@@ -12,7 +12,10 @@ SPEC = {'level': 'exploration',
                         'forgotten-when-only-completed-remain': 0.3, 'sweep': 0.4, 'forget-txhash': 0.3, 'disconnect-peer': 0.3},
                 rule='operation histories vs announcement-level model; non-trivial = >= 3 advised requests, a choice among >= 2 viable candidates, '
                      'and a re-request after a failed request'),
-            gen('vh_c34', 'up_txrequest', 20000, 400000, rule="upstream fuzz target 'txrequest' (its own naive model); supplementary")]}
+            gen('vh_c34', 'up_txrequest', 20000, 400000, rule="upstream fuzz target 'txrequest' (its own naive model); supplementary"),
+        # coverage-guided libFuzzer campaign on the same target (thorough tier only; fz tree = g++ trace-pc + covshim)
+        fuzz('vh_c34', 'c34_txrequest', 300, max_len=1400),
+    ]}
 
 META = {'level_text': 'Generated operation histories (24k per quick run, up to 400 operations over up to 8 peers x 16 txhashes, clock moving forward, backward and '
                'to +-1us around every reqtime/expiry) run in lock-step against an announcement-level reference model: every GetRequestable answer (single peer '
